@@ -224,7 +224,10 @@ class workq:
 
         jobs = [self.id2job[jid] for jid in jobids]
         for j in jobs:
-            j.finish_event.wait()
+            if not j.done:
+                # never wait() on an event that is already set: gevent drops such a
+                # late waiter if the event's last earlier waiter is killed first
+                j.finish_event.wait()
             if j.drop:
                 del self.id2job[j.jobid]
         return jobs
